@@ -13,7 +13,7 @@ import (
 // generator avoids it by construction (counted in excluded_known) and TestC24 re-confirms
 // the witness separately.
 const (
-	fLeaveBlock      = "C24-leave-block-scope"     // LEAVE of a labelled BEGIN block does not pop its scope
+	fLeaveBlock      = "C24-leave-block-scope"     // a forward jump does not pop/push the scope operation right before its target: LEAVE of a labelled BEGIN block, ELSE branch ending with a block
 	fDefaultExpr     = "C24-declare-default-expr"  // DECLARE ... DEFAULT <anything but a number literal> fails at CALL
 	fDeclNoDefault   = "C24-declare-no-default"    // DECLARE v INT starts as 0, not NULL
 	fIterateRepeat   = "C24-iterate-repeat"        // ITERATE inside REPEAT evaluates UNTIL instead of restarting the body
@@ -309,7 +309,7 @@ func (g *gen) stmts(sc scope) []stmt {
 		}
 		if g.chance(50, "else") {
 			s.hasElse = true
-			s.els = g.list(in, 1, 2)
+			s.els = g.elseList(in)
 		}
 		return []stmt{s}
 	case k < 66:
@@ -330,7 +330,7 @@ func (g *gen) stmts(sc scope) []stmt {
 			// inside a handler body a CASE always has an ELSE: "case not found" would be a condition
 			// raised while a handler runs, which is outside the grammar
 			s.hasElse = true
-			s.els = g.list(in, 1, 2)
+			s.els = g.elseList(in)
 		}
 		return []stmt{s}
 	case k < 90:
@@ -340,6 +340,35 @@ func (g *gen) stmts(sc scope) []stmt {
 	default:
 		return []stmt{g.block(sc, false)}
 	}
+}
+
+// endsWithScopeEnd: the last operation the statement list compiles to is the end of a BEGIN ... END
+// block (directly, or through the ELSE branch of a trailing IF / CASE).
+func endsWithScopeEnd(ss []stmt) bool {
+	if len(ss) == 0 {
+		return false
+	}
+	switch x := ss[len(ss)-1].(type) {
+	case *sBlock:
+		return true
+	case sIf:
+		return x.hasElse && endsWithScopeEnd(x.els)
+	case sCase:
+		return x.hasElse && endsWithScopeEnd(x.els)
+	}
+	return false
+}
+
+// elseList generates the ELSE branch of an IF / CASE. An ELSE branch that ends with a block is in the
+// region of fLeaveBlock (the jump from the end of an earlier branch over it leaves the block's scope on
+// the stack); while that finding is listed a simple statement is appended.
+func (g *gen) elseList(in scope) []stmt {
+	els := g.list(in, 1, 2)
+	if endsWithScopeEnd(els) && kf.Listed(fLeaveBlock) {
+		g.st.Excluded(fLeaveBlock)
+		els = append(els, g.simple(in))
+	}
+	return els
 }
 
 // cursorBlock generates the canonical cursor loop: a block with a cursor over src, a NOT FOUND
